@@ -26,7 +26,8 @@ LEVEL = "exploration"
 
 def configs():
     out = []
-    for reset in (False, True):
+    # reset: none, synchronous, asynchronous (the step condition gates the clocked part of all three wrappers alike)
+    for reset in (False, True, "async"):
         # (std.wait_for(0, allow_zero=True) with a CONSTANT 0 is rejected by the compiler on this tree -- an
         # unexpected rejection, not a timing matter -- so the zero case is exercised with run-time durations)
         for form, ns in (("const", [1, 2, 3, 4, 5, 8, 13]), ("waiter_const", [1, 2, 5, 9]), ("duration", [1, 2, 3, 7])):
@@ -78,7 +79,7 @@ HEAD = [
 
 def ctx_line(cfg, freq=False):
     clk = "std.Clock(self.clk, frequency=std.MHz(100))" if freq else "std.Clock(self.clk)"
-    rst = ", std.Reset(self.rst)" if cfg["reset"] else ""
+    rst = ", std.Reset(self.rst, is_async=True)" if cfg["reset"] == "async" else ", std.Reset(self.rst)" if cfg["reset"] else ""
     return f"        ctx = std.SequentialContext({clk}{rst}, step_cond=lambda: self.en)"
 
 
@@ -251,6 +252,11 @@ class GenRef:
         self.pulses += self.rising
         self.state = ns
         self.counter = nxt
+        if self.rc and c["reset"] == "async":
+            # the counter context's reset is ctx.or_reset(disable flag): below an asynchronous context reset it is asynchronous
+            # as well, so a disable acts as soon as the flag is registered, not at the next edge (an enable acts at the next
+            # edge in both cases)
+            self._counter_reset()
 
     def stalled_with_disable(self):
         """the counter context is reset by the disable flag even while the step condition is false"""
@@ -487,7 +493,9 @@ ASSUMPTIONS = [
     "a stalled clock (step condition false) is not a step; reset has priority over the step condition",
     "run-time durations respect the documented preconditions (>= 1, or >= 0 with allow_zero); ClockDivider/ToggleSignal run-time periods >= 1",
     "ClockDivider / ToggleSignal model: counter 0..period-1 restarted by (context reset or the registered disable flag), state from the NEXT counter value, "
-    "rising/falling registered together with the state; enable()/disable() take effect through a registered flag (calibrated on the unchanged tree)",
+    "rising/falling registered together with the state; enable()/disable() take effect through a registered flag (calibrated on the unchanged tree); "
+    "below an asynchronous context reset the flag resets the counter asynchronously too (ctx.or_reset), so a disable is visible one clock earlier than below a synchronous one",
+    "contexts: no reset, synchronous reset, asynchronous reset -- all with a run-time step condition",
     "debounce model: the output changes in the step in which the saturated counter is observed at period / zero",
 ]
 
